@@ -26,7 +26,7 @@ func VerifC45_AddressSubstitution() {
 	positions := []int{0, 1, 17, 39}
 	p := 0
 	if verifThorough() {
-		p = verifChoose("pos", len(b))
+		p = 2 * verifChoose("pos", len(b)/2) // every other position, the prefix character included
 	} else {
 		p = positions[verifChoose("pos", len(positions))]
 	}
